@@ -18,8 +18,10 @@ Bounded-exhaustive enumeration over integer meshes (DESIGN 4/C11).  With total h
 * avg1d    ``average1DWithinTolerance`` on every pair / triple of equal-length family meshes
 
 Oracles are the interval-arithmetic reference models of ``c11_model`` (no armi code).
-Tolerances: 1e-12 relative on exactly coincident meshes; 2e-10 on eps-shifted meshes because
-``getBlocksBetweenElevations`` documents that it discards overlaps below 1e-10 of a block.
+Tolerances: 1e-12 relative (rounding).  ``getBlocksBetweenElevations`` documents that it discards
+overlaps below 1e-10 of a block; on eps-shifted meshes the oracle therefore accepts a result with or
+without each such sliver (``c11_model.droppable``): for assembly totals this is the 1e-10..2e-10
+band of DESIGN 4/C11, for a destination cell it is exactly the sliver's weight in that cell.
 """
 import itertools
 import json
@@ -33,7 +35,9 @@ LEVEL = "exploration"
 MOD = "mcverif.checks.c11"
 
 TOL_COINCIDENT = 1e-12  # same arithmetic, differently associated sums of <= 8 terms
-TOL_EPS = 2e-10  # documented: overlaps thinner than 1e-10 of a block are dropped (one per mapping)
+TOL_EPS = 2e-10  # getBlockAtElevation: a top within 1e-10 (relative) of the elevation counts as reached
+# (overlaps thinner than 1e-10 of a source block may be dropped - documented; the oracle allows for exactly
+#  the weight of those slivers, see c11_model.droppable, instead of a blanket tolerance)
 TOL_ASSOC = 1e-10  # DESIGN 3.4: N*h_old/h_new style re-association
 NAME = "igniter fuel"
 STACK = ["shield", "fuel", "control", "oxide fuel"]
@@ -46,7 +50,7 @@ def bounds(quick):
     return {
         "H": 6 if quick else 8,  # total height of the re-meshed assemblies (units)
         "H_gen": 6,  # total height of the assemblies of generated cores
-        "gen_full": not quick,  # every (IC, OC, control) triple instead of equal-count pairs x 4 controls
+        "gen_full": not quick,  # every (IC, OC, control) triple instead of every (IC, OC) pair x {one control, none}
         "filter_points": 8 if quick else 10,  # _filterMesh candidates = subsets of {0..n-1}
         "filter_mins": [1, 2, 3] if quick else [1, 2, 3, 1.5],
         "H_resample": 6 if quick else 8,
@@ -238,7 +242,18 @@ def _mapper(a):
 
 
 def _densities(a, nucs):
-    return [{n: float(b.getNumberDensity(n)) for n in nucs} for b in a]
+    return [dict(zip(nucs, (float(x) for x in b.getNuclideNumberDensities(nucs)))) for b in a]
+
+
+MASS_NUCS = ("U235", "ZR90", "B10", "O16", "FE56", "NA23")
+
+
+def _masses(a, nucs):
+    """getMass through the component volumes: total and one nuclide of every material (all nuclides of a
+    component share its volume; every nuclide is covered by the N*h observable)."""
+    out = {n: float(a.getMass(n)) for n in nucs if n in MASS_NUCS}
+    out["<all>"] = float(a.getMass())
+    return out
 
 
 def _params(a):
@@ -246,7 +261,9 @@ def _params(a):
 
 
 def _check_params(acc, tag, sfx, case, prof, got, sb, db, tol, prev=None):
-    """prof: source profile per param; got: destination values; prev: destination values before."""
+    """prof: source profile per param; got: destination values; prev: destination values before.
+    ``tol`` is the relative rounding tolerance; overlaps thinner than 1e-10 of a source block may or
+    may not be seen by the implementation (documented), the oracle allows for exactly their weight."""
     for name, kind in PARAMS:
         src = prof[name]
         ref = max([_mag(v) for v in src] + [1.0])
@@ -269,19 +286,23 @@ def _check_params(acc, tag, sfx, case, prof, got, sb, db, tol, prev=None):
             t_src, t_got = _tot(src), _tot(g)
             # a destination cell that overlaps no set source cell keeps its previous value: the total is
             # only comparable when all such cells were unset before
-            kept = [j for j, w in enumerate(M.map_integrated(src, sb, db)) if w is None]
+            kept = [j for j, (w, _s, only) in enumerate(M.map_integrated(src, sb, db)) if w is None or only]
             comparable = all(pv is None or pv[j] is None for j in kept)
-            if comparable and not _cmp(t_got, t_src, tol * max(_mag(_tot([_mul_abs(v) for v in src])), 1.0)):
+            ttol = tol * max(_mag(_tot([_mul_abs(v) for v in src])), 1.0) + M.total_slack(src, sb, db)
+            if comparable and not _cmp(t_got, t_src, ttol):
                 acc.bad(tag + "-integrated-total" + sfx, "%s (volume integrated): assembly total %r before, %r after mapping mesh %s -> %s" % (name, t_src, t_got, sb, db), case)
                 continue
             key = "-integrated-block"
         else:
             want = M.map_averaged(src, sb, db, pv)
             key = "-average-block" if kind == "avg" else "-constant-not-constant"
-        for j, w in enumerate(want):
-            if not _cmp(g[j], w, tol * ref):
-                acc.bad(tag + key + sfx, "%s: destination cell %d [%r,%r] reads %r, overlap-weighted value of source %s on %s is %r" % (name, j, db[j], db[j + 1], g[j], src, sb, w), case)
-                break
+        for j, (w, slack, only) in enumerate(want):
+            if _cmp(g[j], w, tol * ref + slack):
+                continue
+            if only and pv is not None and _cmp(g[j], pv[j], 0.0):
+                continue  # nothing but droppable slivers carried a value: the previous value survived
+            acc.bad(tag + key + sfx, "%s: destination cell %d [%r,%r] reads %r, overlap-weighted value of source %s on %s is %r" % (name, j, db[j], db[j + 1], g[j], src, sb, w), case)
+            break
 
 
 def _mul_abs(v):
@@ -292,6 +313,16 @@ def _mul_abs(v):
     return abs(v)
 
 
+def _drop_frac(sb, db):
+    """Largest fraction of any source block's content that droppable slivers may take away."""
+    frac = 0.0
+    for j in range(len(db) - 1):
+        for i, o in enumerate(M.overlaps(sb, db[j], db[j + 1])):
+            if M.droppable(o, sb[i + 1] - sb[i]):
+                frac += o / (sb[i + 1] - sb[i])
+    return frac
+
+
 def _check_atoms(acc, tag, sfx, case, nucs, sdens, sb, dest, db, tol, smass=None):
     """Per-cell N' = sum N_i o_i / H and assembly totals, from block number densities and getMass."""
     ddens = _densities(dest, nucs)
@@ -299,19 +330,23 @@ def _check_atoms(acc, tag, sfx, case, nucs, sdens, sb, dest, db, tol, smass=None
         src = [d[n] for d in sdens]
         ref = max(src)
         want = M.map_averaged(src, sb, db)
-        for j, w in enumerate(want):
-            if abs(ddens[j][n] - w) > tol * ref:
+        for j, (w, slack, _only) in enumerate(want):
+            if abs(ddens[j][n] - w) > tol * ref + slack:
                 acc.bad(tag + "-block-density" + sfx, "%s: destination cell %d [%r,%r] has number density %r, atoms of the source in that interval give %r (source %s on %s)" % (n, j, db[j], db[j + 1], ddens[j][n], w, src, sb), case)
                 return ddens
         ta = sum(src[i] * (sb[i + 1] - sb[i]) for i in range(len(src)))
         tb = sum(ddens[j][n] * (db[j + 1] - db[j]) for j in range(len(ddens)))
-        if abs(ta - tb) > tol * ta:
+        # atoms in droppable slivers: N_i * o (total_slack works per unit source height, so pass N_i*h_i)
+        tslack = M.total_slack([src[i] * (sb[i + 1] - sb[i]) for i in range(len(src))], sb, db)
+        if abs(ta - tb) > tol * ta + tslack:
             acc.bad(tag + "-atoms-total" + sfx, "%s: sum N*h = %r on mesh %s, %r after mapping onto %s (relative %.3g)" % (n, ta, sb, tb, db, (tb - ta) / ta), case)
             return ddens
     if smass is not None:
-        for n in nucs:
-            mb = float(dest.getMass(n))
-            if abs(mb - smass[n]) > tol * smass[n]:
+        dmass = _masses(dest, nucs)
+        frac = _drop_frac(sb, db)
+        for n in sorted(smass):
+            mb = dmass[n]
+            if abs(mb - smass[n]) > (tol + frac) * smass[n]:
                 acc.bad(tag + "-mass-total" + sfx, "getMass(%s) = %r before, %r after mapping %s -> %s (relative %.3g)" % (n, smass[n], mb, sb, db, (mb - smass[n]) / smass[n]), case)
                 break
     return ddens
@@ -347,7 +382,7 @@ def _remesh_one(acc, fac, case):
 
     heights, scale, mesh, eps, vs = case["heights"], case["scale"], case["mesh"], case["eps"], case["vs"]
     sfx = "@eps" if eps else ""
-    tol = TOL_EPS if eps else TOL_COINCIDENT
+    tol = TOL_COINCIDENT  # rounding only; droppable slivers are accounted for by the oracle
     sb = [0.0] + M.tops(heights, scale)
     db = [0.0] + list(mesh)
     acc.n += 1
@@ -363,7 +398,7 @@ def _remesh_one(acc, fac, case):
     pm = _mapper(A)
     nucs = sorted(A.getNuclides())
     sdens = _densities(A, nucs)
-    smass = {n: float(A.getMass(n)) for n in nucs}
+    smass = _masses(A, nucs)
     if min(smass.values()) <= 0.0:
         raise RuntimeError("generator precondition: nuclide without mass")
     # ---- A -> B
@@ -383,8 +418,8 @@ def _remesh_one(acc, fac, case):
     bdens = _check_atoms(acc, "remesh", sfx, case, nucs, sdens, sb, B, db, tol, smass)
     bpar = _params(B)
     _check_params(acc, "remesh", sfx, case, prof, bpar, sb, db, tol)
-    if eps and any(min(abs(p - q) for q in sb) == abs(eps) for p in db[1:-1]):
-        acc.count("remesh_near_coincident_boundary")
+    if eps:
+        acc.count("remesh_sliver_droppable" if _drop_frac(sb, db) > 0.0 else "remesh_sliver_must_be_counted" if any(0.0 < o < 1e-6 for j in range(len(db) - 1) for o in M.overlaps(sb, db[j], db[j + 1])) else "remesh_eps_no_sliver")
     # ---- B -> A on the real (heterogeneous) source assembly
     apar0 = _params(A)
     try:
@@ -394,13 +429,14 @@ def _remesh_one(acc, fac, case):
         return
     if not _check_mesh(acc, "backmap-heights-changed" + sfx, case, A, sb, "assembly after mapping state back"):
         return
-    bmass = {n: float(B.getMass(n)) for n in nucs}
+    bmass = _masses(B, nucs)
     _check_atoms(acc, "backmap", sfx, case, nucs, bdens, db, A, sb, tol, bmass)
     _check_params(acc, "backmap", sfx, case, bpar, _params(A), db, sb, tol, prev=apar0)
     # ---- there and back: totals restored (two mappings -> twice the per-mapping tolerance)
-    for n in nucs:
-        m2 = float(A.getMass(n))
-        if abs(m2 - smass[n]) > 2 * tol * smass[n]:
+    amass = _masses(A, nucs)
+    for n in sorted(smass):
+        m2 = amass[n]
+        if abs(m2 - smass[n]) > (2 * tol + _drop_frac(sb, db) + _drop_frac(db, sb)) * smass[n]:
             acc.bad("roundtrip-mass-total" + sfx, "getMass(%s) = %r originally, %r after %s -> %s -> %s (relative %.3g)" % (n, smass[n], m2, sb, db, sb, (m2 - smass[n]) / smass[n]), case)
             break
     apar = _params(A)
@@ -408,7 +444,8 @@ def _remesh_one(acc, fac, case):
         if kind != "vi":
             continue
         t0, t2 = _tot(prof[name]), _tot(apar[name])
-        if not _cmp(t2, t0, 2 * tol * max(_mag(t0), 1.0)):
+        slack = M.total_slack(prof[name], sb, db) + M.total_slack(bpar[name], db, sb)
+        if not _cmp(t2, t0, 2 * tol * max(_mag(t0), 1.0) + slack):
             acc.bad("roundtrip-integrated-total" + sfx, "%s: assembly total %r originally, %r after %s -> %s -> %s" % (name, t0, t2, sb, db, sb), case)
 
 
@@ -468,12 +505,13 @@ def _between_pair(acc, A, sb, z0, z1, base):
     if idx != sorted(set(idx)):
         acc.bad("between-order", "getBlocksBetweenElevations(%r,%r) on mesh %s returns blocks %s (not bottom-up / repeated)" % (z0, z1, sb, idx), case)
         return
-    missing = [i for i, o in enumerate(want) if o > TOL_EPS * (sb[i + 1] - sb[i]) and i not in idx]
+    missing = [i for i, o in enumerate(want) if o > 0.0 and not M.droppable(o, sb[i + 1] - sb[i]) and i not in idx]
     if missing:
         acc.bad("between-missing-block", "getBlocksBetweenElevations(%r,%r) on mesh %s omits block(s) %s overlapping by %s" % (z0, z1, sb, missing, [want[i] for i in missing]), case)
         return
     tot = sum(h for _b, h in got)
-    if abs(tot - (z1 - z0)) > TOL_EPS * htot:
+    dropped = sum(o for i, o in enumerate(want) if M.droppable(o, sb[i + 1] - sb[i]))
+    if abs(tot - (z1 - z0)) > 1e-12 * htot + dropped:
         acc.bad("between-sum", "getBlocksBetweenElevations(%r,%r) on mesh %s: overlap heights sum to %r, interval length %r" % (z0, z1, sb, tot, z1 - z0), case)
     if len(idx) < sum(1 for o in want if o > 0):
         acc.count("between_sliver_dropped")
@@ -566,7 +604,7 @@ def _setmesh_one(acc, fac, case):
     nucs = sorted(A.getNuclides())
     d0 = _densities(A, nucs)
     c0 = _comp_state(A)
-    m0 = [{n: float(b.getMass(n)) for n in nucs} for b in A]
+    m0 = [_masses(b, nucs) for b in A]
     isfuel = [bool(b.hasFlags(Flags.FUEL)) for b in A]
     try:
         _apply_mesh(A, db[1:], flag)
@@ -584,13 +622,16 @@ def _setmesh_one(acc, fac, case):
                 if abs(a0 - a1) > TOL_ASSOC * max(a0, 1e-30):
                     acc.bad("setmesh-atoms-not-conserved" if flag is True else "blocksetheight-atoms-not-conserved", "block %d, %s: N*h = %r before, %r after %s -> %s with mass conservation requested" % (k, n, a0, a1, sb, db), case)
                     return
-                m1 = float(b.getMass(n))
-                if abs(m1 - m0[k][n]) > TOL_ASSOC * max(m0[k][n], 1e-30):
-                    acc.bad("setmesh-mass-not-conserved" if flag is True else "blocksetheight-mass-not-conserved", "block %d: getMass(%s) = %r before, %r after %s -> %s with mass conservation requested" % (k, n, m0[k][n], m1, sb, db), case)
+            m1 = _masses(b, nucs)
+            for n in sorted(m1):
+                if abs(m1[n] - m0[k][n]) > TOL_ASSOC * max(m0[k][n], 1e-30):
+                    acc.bad("setmesh-mass-not-conserved" if flag is True else "blocksetheight-mass-not-conserved", "block %d: getMass(%s) = %r before, %r after %s -> %s with mass conservation requested" % (k, n, m0[k][n], m1[n], sb, db), case)
                     return
     elif flag is False:
-        if d1 != d0:
-            acc.bad("setmesh-density-changed", "setBlockMesh %s -> %s without conservation changed number densities" % (sb, db), case)
+        # homogenised densities are recomputed from component volumes: equal up to rounding
+        ch = [(k, n, d0[k][n], d1[k][n]) for k in range(len(d0)) for n in nucs if abs(d1[k][n] - d0[k][n]) > TOL_COINCIDENT * d0[k][n]]
+        if ch:
+            acc.bad("setmesh-density-changed", "setBlockMesh %s -> %s without conservation changed number densities: block %d %s %r -> %r" % ((sb, db) + ch[0]), case)
             return
     else:  # "auto": fuel of fuel blocks keeps its mass; solids below the fuel column keep theirs
         below = True
@@ -734,16 +775,24 @@ def _gen_one(acc, case):
                 acc.count("gen_average_refused")
                 continue
             cand = set(avg_mesh) | mb
-            close = sorted(mb)
+            # the assembly bottom (0.0) is a mesh boundary too: a material boundary closer to it than
+            # the minimum is a legitimate reason to refuse
+            close = sorted(mb | {0.0})
             close = [(close[i], close[i + 1]) for i in range(len(close) - 1) if close[i + 1] - close[i] < mm]
             if res is None:
                 acc.count("gen_valueerror")
                 if not close:
-                    acc.bad("gen-valueerror-without-close-boundaries", "generateCommonMesh(min=%r) refused although all fuel/control boundaries %s are at least the minimum apart: %s" % (mm, sorted(mb), msg[:100]), c1)
+                    acc.bad("gen-valueerror-without-close-boundaries", "generateCommonMesh(min=%r) refused although the assembly bottom and all fuel/control boundaries %s are at least the minimum apart: %s" % (mm, sorted(mb), msg[:100].replace("\n", " ")), c1)
                 continue
             acc.count("gen_ok_decusped")
-            for clause, text in M.filter_check(sorted(cand), mm, [fuel_lo, fuel_hi], res):
+            # anchors: the lowest fuel bottom and the highest fuel top (a fuel bottom on the assembly
+            # bottom is the implicit first boundary of the mesh, not a cell top)
+            for clause, text in M.filter_check(sorted(cand), mm, [z for z in (fuel_lo, fuel_hi) if z > 0.0], res):
                 acc.bad("gen-mesh-" + clause, "generateCommonMesh(min=%r) on core meshes %s (average %s, material boundaries %s): %s" % (mm, meshes, avg_mesh, sorted(mb), text), c1)
+            if res and res[0] - 0.0 < mm:
+                # the common mesh lists cell tops; the first cell starts at the assembly bottom (0.0)
+                acc.bad("gen-mesh-thin-first-cell", "generateCommonMesh(min=%r) on core meshes %s gives %s: the first cell [0.0, %r] is thinner than the minimum (material boundaries %s)" % (mm, meshes, res, res[0], sorted(mb)), c1)
+                continue
             if res and abs(res[-1] - htot) > 1e-9 * htot:
                 acc.count("gen_mesh_drops_assembly_top")  # outside the statement; reported as an observation
                 continue
@@ -762,12 +811,11 @@ def _convert_roundtrip(acc, case, h1, h2, hc, scale, m, mesh):
         over["uniformMeshMinimumSize"] = m * scale
     cs = build.settings(**over)
     r = build.reactor(_core_spec(h1, h2, hc, scale), cs=cs)
-    acc.n += 1
-    acc.nt += 1
+    # not counted as an evaluation of its own: whether it runs depends on the generator's outcome
     src = {}
     for a in r.core:
         nucs = sorted(a.getNuclides())
-        src[a.getName()] = (nucs, _densities(a, nucs), {n: float(a.getMass(n)) for n in nucs}, _mesh_of(a))
+        src[a.getName()] = (nucs, _densities(a, nucs), _masses(a, nucs), _mesh_of(a))
     conv = um.NeutronicsUniformMeshConverter(cs, calcReactionRates=False)
     try:
         conv.convert(r)
@@ -819,8 +867,8 @@ def _convert_roundtrip(acc, case, h1, h2, hc, scale, m, mesh):
             else:
                 want = M.map_averaged(prof[n], db, sb)
             if want is not None:
-                for j, w in enumerate(want):
-                    if not _cmp(g[j], w, tol * ref):
+                for j, (w, slack, _only) in enumerate(want):
+                    if not _cmp(g[j], w, tol * ref + slack):
                         acc.bad("conv-back-" + ("integrated-block" if kinds[n] == "vi" else "average-block" if kinds[n] == "avg" else "constant-not-constant"), "%s: cell %d of %s reads %r, overlap-weighted value from %s on %s is %r" % (n, j, sb, g[j], prof[n], db, w), case)
                         return
     acc.count("conv_roundtrips")
@@ -835,7 +883,7 @@ def _eval_gen(case):
 def _eval_gen_batch(item):
     acc = Acc()
     for hc in item["hcs"]:
-        _gen_one(acc, {"kind": "gen", "h1": item["h1"], "h2": item["h2"], "hc": hc, "scale": item["scale"], "mins": item["mins"], "convert": item["convert"]})
+        _gen_one(acc, {"kind": "gen", "h1": item["h1"], "h2": item["h2"], "hc": hc, "scale": item["scale"], "mins": item["mins"], "convert": item["convert"] if hc in item["convert_for"] else []})
     return acc
 
 
@@ -965,13 +1013,16 @@ def _resample_one(acc, case):
     if r[0] == "exc":
         if mode == "none" and r[1] == "TypeError" and not span:
             acc.bad(pre + "-none-partial-overlap-raises", "%s raised TypeError (%s): a partly overlapped None cell must give None" % (what, r[2]), case)
+        elif below:
+            # one mechanism: an output cell that begins below xin[0] indexes yin[-1:...] (wrap-around)
+            acc.bad("resample-below-span-wraparound", "%s raised %s: %s" % (what, r[1], r[2]), case)
         else:
             acc.bad(pre + span + "-raises", "%s raised %s: %s" % (what, r[1], r[2]), case)
         return
     _ok, got, mod, yafter = r
     if mod:
-        which = "ndarray" if mode in ("ndarray", "ndarray2d") else "array-elements" if mode == "arrlist" else mode
-        acc.bad(pre + "-mutates-%s-input" % which, "%s modified its input %s: yin is now %s" % (what, mod, yafter), case)
+        # one mechanism: the partial-bin trimming multiplies in place, through numpy views / shared arrays
+        acc.bad(pre + "-writes-into-caller-arrays", "%s modified its input %s: yin is now %s" % (what, mod, yafter), case)
     if len(got) != len(want):
         acc.bad(pre + span + "-length", "%s returned %d values for %d cells" % (what, len(got), len(want)), case)
         return
@@ -982,22 +1033,26 @@ def _resample_one(acc, case):
             if not _cmp(_tot(got), _tot(yin), 1e-11 * ref * len(yin)):
                 acc.bad(pre + "-total", "%s: sum of inputs %r, sum of outputs %r" % (what, _tot(yin), _tot(got)), case)
         return
-    j = badj[0]
-    detail = "%s: cell %d [%r,%r] is %r, expected %r (all: %s)" % (what, j, xout[j], xout[j + 1], got[j], want[j][0], got)
-    if span:
-        acc.bad(pre + span + "-values", detail, case)
-        return
-    if mode in ("ndarray", "ndarray2d", "arrlist") and not avg:
-        twin_mode = "list" if mode == "ndarray" else "pylist2d"
-        t = _twin(xin, yin, xout, avg)
-        if t is not None and all(_cmp(g, w, TOL_COINCIDENT * ref) for g, (w, _a) in zip(t, want)):
-            acc.bad(pre + "-aliased-array-values", detail + " - the same call on python lists (%s) is right: the error comes from writing into the caller's array" % twin_mode, case)
-            return
     inner = set(M.inner_cells(xin, xout))
-    if not avg and all(jj in inner for jj in badj):
-        acc.bad(pre + "-inner-cell-product-of-fractions", detail + " - an output cell strictly inside one input cell must get (b-a)/len of it", case)
+    twin = _twin(xin, yin, xout, avg) if mode in ("ndarray", "ndarray2d", "arrlist") else None
+    if twin is not None and len(twin) == len(want):
+        alias = [j for j in badj if (_cmp(twin[j], want[j][0], TOL_COINCIDENT * ref) if want[j][0] is not None else twin[j] is None)]
     else:
-        acc.bad(pre + "-values", detail, case)
+        alias = []
+    rest = [j for j in badj if j not in alias]
+
+    def detail(j):
+        return "%s: cell %d [%r,%r] is %r, expected %r (all: %s)" % (what, j, xout[j], xout[j + 1], got[j], want[j][0], got)
+
+    if alias:
+        acc.bad(pre + "-writes-into-caller-arrays", detail(alias[0]) + " - the same call on python lists is right for this cell: the error comes from writing into the caller's array", case)
+    if rest:
+        if not avg and all(jj in inner for jj in rest):
+            acc.bad(pre + "-inner-cell-product-of-fractions", detail(rest[0]) + " - an output cell strictly inside one input cell must get (b-a)/len of it", case)
+        elif below:
+            acc.bad("resample-below-span-wraparound", detail(rest[0]), case)
+        else:
+            acc.bad(pre + span + "-values", detail(rest[0]), case)
 
 
 def _twin(xin, yin, xout, avg):
@@ -1135,13 +1190,22 @@ _EVAL = {
 
 
 def evaluate(case):
+    import warnings
+
     random.seed(0)
-    return _EVAL[case["kind"]](case).viols
+    with warnings.catch_warnings():
+        warnings.simplefilter("ignore", RuntimeWarning)
+        return _EVAL[case["kind"]](case).viols
 
 
 def _run_item(item):
+    import warnings
+
     random.seed(0)
-    r = _EVAL[item["kind"]](item).result()
+    with warnings.catch_warnings():
+        # average1DWithinTolerance takes the mean of an empty array just before it raises ValueError
+        warnings.simplefilter("ignore", RuntimeWarning)
+        r = _EVAL[item["kind"]](item).result()
     r["kind"] = item["kind"]
     return r
 
@@ -1176,13 +1240,12 @@ def cases(ctx):
     if B["gen_full"]:
         for h1 in gcomps:
             for h2 in gcomps:
-                items.append({"kind": "gen_batch", "h1": h1, "h2": h2, "hcs": gcomps + [None], "scale": scale, "mins": mins, "convert": mins if len(h1) == len(h2) else [None]})
+                items.append({"kind": "gen_batch", "h1": h1, "h2": h2, "hcs": gcomps + [None], "scale": scale, "mins": mins, "convert": mins if len(h1) == len(h2) else [None], "convert_for": [[2, 2, 2], [1, 2, 2, 1], [3, 3], None]})
     else:
-        hcs = [[2, 2, 2], [3, 3], [1, 2, 2, 1], None]
+        hcs = [[2, 2, 2], None]
         for h1 in gcomps:
             for h2 in gcomps:
-                if len(h1) == len(h2):
-                    items.append({"kind": "gen_batch", "h1": h1, "h2": h2, "hcs": hcs, "scale": scale, "mins": mins, "convert": [None, 1]})
+                items.append({"kind": "gen_batch", "h1": h1, "h2": h2, "hcs": hcs, "scale": scale, "mins": mins, "convert": [None] if h1 <= h2 else [], "convert_for": [hcs[0]]})
     # filter
     n = B["filter_points"]
     fpts = [p * scale for p in range(n)]
@@ -1226,7 +1289,7 @@ def run(ctx):
         {"kind": "remesh", "heights": samp[0]["heights"], "scale": scale, "rot": samp[0]["rot"], "vs": samp[0]["vs"], "mesh": samp[0]["meshes"][-1][0], "eps": samp[0]["meshes"][-1][1]},
         next({k: v for k, v in it.items()} for it in items if it["kind"] == "filter" and len(it["points"]) == 4),
         next(it for it in items if it["kind"] == "resample" and it["fam"] == "span" and len(it["xin"]) == 3),
-        next({"kind": "gen", "h1": it["h1"], "h2": it["h2"], "hc": it["hcs"][0], "scale": scale, "mins": it["mins"], "convert": it["convert"]} for it in items if it["kind"] == "gen_batch"),
+        next({"kind": "gen", "h1": it["h1"], "h2": it["h2"], "hc": it["hcs"][0], "scale": scale, "mins": it["mins"], "convert": it["convert"]} for it in items if it["kind"] == "gen_batch" and it["convert"]),
     ]
     ctx.coverage.update(
         evaluations=ev,
@@ -1242,7 +1305,7 @@ def run(ctx):
     )
     ctx.assumptions += [
         "total height %d units of %g cm (exactly representable scales only), 2-4 blocks per assembly, one interior mesh point moved by +-1e-9/+-1e-13; the top point is never moved (meshes span the same height)" % (B["H"], scale),
-        "tolerances: 1e-12 relative on coincident meshes, 2e-10 on eps-shifted meshes (getBlocksBetweenElevations documents dropping overlaps below 1e-10 of a block), 1e-10 for N*h_old/h_new re-association",
+        "tolerances: 1e-12 relative rounding; an overlap thinner than 1e-10 of its source block may or may not be counted (documented threshold of getBlocksBetweenElevations) - the oracle accepts exactly that band; 1e-10 for N*h_old/h_new re-association",
         "blocks of one assembly have equal cross-sectional area (checked as a generator precondition); positive parameter values; partially unset profiles only for a volume-integrated parameter",
         "generated cores: 2 fuel assemblies (+ optional control assembly), third-core hex, detailedAxialExpansion on; converter round trips only when the generated mesh keeps the assembly top",
         "average of partially covered output cells of resampleStepwise (avg=True, out-of-span) is not judged: two readings exist",
